@@ -184,7 +184,62 @@ def gen_extras(r, spec, rich):
     ex["sub_service"] = bool(ex["subpkgs"]) and r2.maybe(0.45 if rich else 0.25)
     ex["iam_override"] = IAM_API in ex["mixins"] and r2.maybe(0.2)
     ex["yaml"] = gen_yaml(r2, spec, ex, rich)
+    # ---- round 3 (again a separate stream): `google.api.field_info` formats on string fields
+    gen_formats(apigen.Rng(f"c10-extras3:{spec['idx']}:{r.random()}"), spec, ex, rich)
     return ex
+
+
+FORMATS = ["UUID4", "IPV4", "IPV6", "IPV4_OR_IPV6"]
+FMT_NAMES = {"UUID4": ["idempotency_token", "trace_id", "txn_uuid"], "IPV4": ["client_ip", "gateway_v4"], "IPV6": ["peer_ip6"],
+             "IPV4_OR_IPV6": ["any_ip", "origin_addr"]}
+
+
+def gen_formats(r, spec, ex, rich):
+    """string fields with a `google.api.field_info` format (UUID4 / IPV4 / IPV6 / IPV4_OR_IPV6) whose MOCK VALUE is rendered:
+    REQUIRED ones (sample request set-up -> samples and client docstrings), flattened ones (own method_signature -> the
+    flattened-argument tests), ones inside a message that is the REST body field (`request_init[...]` of the REST tests), and
+    plain optional ones; mostly on unary RPCs.  Optional UUID4 fields are listed under `auto_populated_fields` of the yaml's
+    method settings for about half of the methods that may carry them (the `request_id` fields of round 2 are always
+    listed), the others stay unlisted.  Mutates the method / message dicts of the spec and `ex['yaml']`."""
+    y = ex.get("yaml")
+    kept = None
+    if y:
+        for ls in (y.get("publishing") or {}).get("library_settings") or []:
+            sg = ((ls.get("python_settings") or {}).get("common") or {}).get("selective_gapic_generation")
+            if sg and not sg.get("generate_omitted_as_internal"):
+                kept = set(sg["methods"])
+    for svc in spec["services"]:
+        for me in svc["methods"]:
+            if me["kind"] == "sstream" and not r.maybe(0.3):
+                continue
+            if not (rich or r.maybe(0.6)):
+                continue
+            fmts = r.sample(FORMATS, r.randint(1, 3))
+            if "UUID4" not in fmts and r.maybe(0.7):
+                fmts[0] = "UUID4"
+            used, out = set(me.get("autopop") or []), []
+            for fm in fmts:
+                nm = r.pick([n for n in FMT_NAMES[fm] if n not in used] or [f"{fm.lower()}_x"])
+                used.add(nm)
+                out.append({"name": nm, "format": fm, "required": r.maybe(0.5), "flatten": r.maybe(0.4)})
+            me["fmt_fields"] = out
+            if any(rf["name"] == "payload" for rf in me["req_fields"]) and me["http"] in ("post", "patch") and me["kind"] in ("unary", "lro") \
+                    and not me.get("autopop") and r.maybe(0.5):
+                me["body_field"] = "payload"            # the REST body is ONE message field: its mock is spelled out in the tests
+            listable = [f["name"] for f in out if f["format"] == "UUID4" and not f["required"] and not f["flatten"]]
+            sel = f"{PKG}.{svc['name']}.{me['name']}"
+            if (listable and y and not ex.get("sub_service") and me["kind"] in ("unary", "void", "paged") and not me.get("body_field")
+                    and (kept is None or sel in kept) and r.maybe(0.5)):
+                pub = y.setdefault("publishing", {})
+                ms = pub.setdefault("method_settings", [])
+                ent = next((e for e in ms if e["selector"] == sel), None)
+                if ent is None:
+                    ms.insert(r.randint(0, len(ms)), {"selector": sel, "auto_populated_fields": listable})
+                elif "long_running" not in ent:
+                    ent["auto_populated_fields"] = list(ent.get("auto_populated_fields") or []) + listable
+    for m in spec["messages"]:
+        if rich or r.maybe(0.4):
+            m["fmt_fields"] = [{"name": r.pick(["owner_token", "source_ip", "audit_uuid"]), "format": r.pick(FORMATS), "required": r.maybe(0.3)}]
 
 
 ALT_URI = {"get": "/v2/{name=projects/*/operations/*}", "delete": "/v2/{name=projects/*/operations/*}",
@@ -325,6 +380,8 @@ def build_files(spec):
         m, mo = msgs[k], objs[k]
         for f in m["fields"]:
             add_field(mo, f, home[k])
+        for ff in m.get("fmt_fields") or []:
+            fmt_field(mo, ff)
         if m["resource"]:
             mo.resource(m["resource"]["type"], m["resource"]["pattern"])
         if m["nested"]:
@@ -392,9 +449,12 @@ def build_files(spec):
                 add_field(rq, rf, last)
             for ap in me.get("autopop") or []:           # AIP-4235 fields named by the yaml's method_settings
                 rq.field(ap, uuid4=True)
+            for ff in me.get("fmt_fields") or []:        # round 3: field_info formats (required / flattened / optional)
+                fmt_field(rq, ff)
             http_uri = "/v1/{name=" + f"c{tgt}s/*" + "}"
-            body = "*" if me["http"] in ("post", "patch") else None
+            body = (me.get("body_field") or "*") if me["http"] in ("post", "patch") else None
             sigs = ["name"] if me["sig"] else []
+            sigs = sigs + ["name," + ff["name"] for ff in me.get("fmt_fields") or [] if ff.get("flatten")]
             if ex.get("multisig"):
                 fl = [rf["name"] for rf in me["req_fields"] if rf["kind"] in ("string", "int32", "bool", "message")]
                 sigs = sigs + [",".join(fl[:4])] + ([",".join(reversed(fl[:3]))] if len(fl) >= 3 else [])
@@ -426,6 +486,13 @@ def build_files(spec):
             so.method("GetIamPolicy", rq, full(order[0]), http=("post", "/v1/{resource=c0s/*}:getIamPolicy"), body="*")
     # the sub-package service file goes AFTER the files it does not depend on, like protoc would list it
     return [shared] + subfiles + files, subfiles + files, retry_cfg
+
+
+def fmt_field(mo, ff):
+    from google.api import field_info_pb2
+    fd = mo.field(ff["name"], required=ff.get("required", False))
+    fd.options.Extensions[field_info_pb2.field_info].format = field_info_pb2.FieldInfo.Format.Value(ff["format"])
+    return fd
 
 
 def add_extops(f):
@@ -1548,7 +1615,9 @@ def run(ctx):
                 "mixins and for half of the others — apis shuffled, mixin http rules shuffled/interleaved, repeated selectors, "
                 "additional_bindings, rules of disabled mixins and of own methods, method_settings (long_running / auto_populated UUID4 fields), "
                 "library_settings (selective generation of a method subset, rest_async_io) —, sub-packages of sub-packages, a service inside a "
-                "sub-package, an own rpc named like an IAM mixin method; per API 3-6 re-ordered variants of its yaml at schema level; each API is "
+                "sub-package, an own rpc named like an IAM mixin method; round 3: string fields with a google.api.field_info format (UUID4 / IPV4 / IPV6 / "
+                "IPV4_OR_IPV6) in request messages (mostly unary RPCs) and in resource messages — required, flattened by an own method_signature, inside "
+                "a single-field REST body, or plain optional; optional UUID4 ones listed in auto_populated_fields for about half of the eligible methods; per API 3-6 re-ordered variants of its yaml at schema level; each API is "
                 "generated by N separate processes (distinct PYTHONHASHSEED incl. `random`, three working directories, five "
                 "locale/TZ/HOME environments, same seed twice) plus 2-3 processes (6 on replay) that differ from the first one only in the wall-clock "
                 "time they see (another year in either direction, 31 Dec 23:59:59Z under two time zones, leap day, > 2**31, year 2100, another "
@@ -1600,7 +1669,7 @@ def search(ctx):
                 rr = ctx.rng("search", a)
                 spec = gen_spec(rr, 1000 + a, clean=True, rich=True)      # every feature on: >= 3 elements at every ordered site
                 spec["opts"]["retry"] = True; spec["opts"]["metadata"] = True
-                spec["opts"]["snippets"] = (a % 2 == 1)
+                spec["opts"]["snippets"] = (a % 2 == 1) and not spec["extras"].get("sub_service")
                 if a % 2 == 0 and not spec["extras"].get("extop"):
                     spec["opts"]["transport"] = "grpc+rest"
                 items.append((rr, spec, f"search{a}", False))
